@@ -154,3 +154,32 @@ func RunServerAgainst(scfg *gmtls.Config, send []byte, client func(rw *wire.Conn
 	}
 	return res
 }
+
+// RunClientAgainst: gmtls client vs an arbitrary scripted server function talking over the in-memory transport.
+func RunClientAgainst(ccfg *gmtls.Config, send []byte, server func(rw *wire.Conn) error) *ScriptedResult {
+	hub := wire.NewHub()
+	cw, sw := hub.Pipe("client:1", "server:443")
+	res := &ScriptedResult{}
+	cw.TapOut(func(b []byte) {
+		res.C2S = append(res.C2S, b...)
+		res.Log = append(res.Log, rgmssl.Chunk{FromClient: true, Data: append([]byte(nil), b...)})
+	})
+	sw.TapOut(func(b []byte) {
+		res.S2C = append(res.S2C, b...)
+		res.Log = append(res.Log, rgmssl.Chunk{FromClient: false, Data: append([]byte(nil), b...)})
+	})
+	closeAll := func() { cw.Close(); sw.Close() }
+	d := hub.GoAll(
+		func() { gmEndpoint(hub, &res.GM, gmtls.Client(cw, ccfg), send, closeAll) },
+		func() {
+			res.PeerPanic = hx.Try(func() { res.PeerErr = server(sw) })
+			sw.Close()
+		})
+	<-d[0]
+	<-d[1]
+	res.Stalled = hub.Stalled
+	if res.GM.Panic != nil {
+		_, res.Spin = res.GM.Panic.Val.(wire.Spin)
+	}
+	return res
+}
